@@ -80,6 +80,10 @@ def apply(event, cname, args):
     if n == "rint" and len(xs) == 1:
         return Num("double", _rint_even(xs[0]))
     if n == "fabs" and len(xs) == 1:
+        if args[0].kind in ("int", "bool"):
+            from .model import toint
+            x = toint(args[0])
+            return Num("double", z3.ToReal(z3.If(x >= 0, x, -x)))
         return Num("double", _abs(xs[0]))
     if n == "fmax" and len(xs) == 2:
         return Num("double", z3.If(xs[0] >= xs[1], xs[0], xs[1]))
